@@ -218,6 +218,9 @@ TagTok(n, at, g) == [t |-> "open", n |-> n, g |-> g, attrs |-> at]
 \*   [a |-> "spread", m]    [a |-> "cond", c, then, else]   (then/else: lists of const/boolc/expr/class attributes)
 \*   [a |-> "class", e]     class={ expr } with a plain string class name (id K1...)
 \*   [a |-> "class2"]       class={ K1, K2 }: two class expressions (not a single string expression)
+\*   [a |-> "url", u]       href={ templ.URL(U) }: a URL attribute; U1 is an allowed URL, U2 a javascript: URL, which is
+\*                          replaced by the fixed failed-sanitization URL (what the sanitiser admits is C04's subject)
+\*   [a |-> "style", e]     style={ T }: a style attribute value (T1 a declaration string, T2 a map with one declaration)
 \*   [a |-> "cssclass"]     class={ boxed() }: the class of a css template; its <style> element is written in front of
 \*                          the start tag, once per rendering (a "def" token, see Dedupe)
 \*   [a |-> "scriptcall"]   onclick={ greet("x") }: a call of a script template; the <script> element defining the
@@ -245,6 +248,8 @@ DenAttrs(at, env) ==
                       [] a.a = "spread" -> [pairs |-> SpreadPairs(a.m), evs |-> << a.m >>]
                       [] a.a = "cond"   -> LET sub == DenAttrs(IF env.c[a.c] THEN a.then ELSE a.else, env)
                                            IN [pairs |-> sub.pairs, evs |-> << a.c >> \o sub.evs]
+                      [] a.a = "url"        -> [pairs |-> << [n |-> "href", v |-> IF a.u = "U2" THEN "UBAD" ELSE a.u] >>, evs |-> << a.u >>]
+                      [] a.a = "style"      -> [pairs |-> << [n |-> "style", v |-> a.e] >>, evs |-> << a.e >>]
                       [] a.a = "cssclass"   -> [pairs |-> << [n |-> "class", v |-> "CSSB"] >>, evs |-> <<>>]
                       [] a.a = "scriptcall" -> [pairs |-> << [n |-> "onclick", v |-> "SCRG"] >>, evs |-> <<>>]
              defs == CASE a.a = "cssclass"   -> << "cssB" >>
